@@ -86,6 +86,37 @@ add("C17", "exploration",
     "Exploration only. On the pinned tree most curve_fit (finite-difference) cases fall under K1, so that variant's accuracy is effectively unverified until the defect is repaired; curve_fit_jac, linear_fit and all validation paths are fully judged.",
     "DESIGN.md 4/C17")
 
+add("C01", "exploration",
+    "property-based testing (proptest) + exhaustive boundary sweep: invariant over the yielded history (ordering, containment, gap bound, end point, Euler grid) through next() and collect_vec, on a generated family of smooth problems and configurations",
+    "Generated (solver, problem, t0, dt_min, dt_max, tolerance, interval length) configurations incl. tolerances recentred on the first-step estimate (forces rejections) and intervals from a fraction of a step to thousands of steps; the start-up boundaries (interval = (j+delta) first steps, j=0..9, six deltas) are swept exhaustively for all seven solvers on four problems.",
+    "Exploration only. Time comparisons carry the slack 16 eps max(|t0|,|t_end|). Paths that end with a solver error are judged up to the error (completion is C05's claim).",
+    "DESIGN.md 4/C01")
+add("C02", "exploration",
+    "property-based testing (proptest) with exact/reference flows: every consecutive pair of yielded points is compared with the exact solution restarted at the previous point (closed-form flows; 3-stage Gauss-Legendre reference flow for the generic family)",
+    "Generated paths of the six adaptive solvers inside the quantifier's step-cap regime; every accepted step (start-up, multistep, clipped final) must satisfy |y_(n+1) - Phi(t_n,y_n;t_(n+1))| <= 100 tol h (RK, Adams) or 20 tol (BDF) plus a rounding floor.",
+    "Exploration only. The constants 100/20 are 'a fixed modest multiple' with >= 10x measured margin; degradations below that are invisible here (C03 is the sharp instrument).",
+    "DESIGN.md 4/C02")
+add("C03", "exploration",
+    "property-based differential testing (proptest) against harness-side reference formulas transcribed from the literature (Fehlberg 4(5), Bogacki-Shampine 3(2), classical RK4, AB/AM 2 and 4, BDF 2/6): every yielded point re-derived from the preceding yielded points, policy-independently; fixed-step accept/reject direction",
+    "On generic non-linear non-autonomous right-hand sides every point of every generated path must be one step of the advertised scheme from the previous point(s) to rounding level (Runge-Kutta, Euler, RK4 start-up, Adams with PEC/PECE history search) or satisfy the BDF formula at the new time within 4 tol, with the method's own error estimate within tolerance; on fixed-step configurations steps with estimates <= tol/100 must be taken and first steps with estimates > 2 tol must not.",
+    "Exploration only. BDF points are judged by the residual of the implicit formula (<= 4 tol), so a different but equally accurate implicit solve is indistinguishable.",
+    "DESIGN.md 4/C03")
+add("C04", "exploration",
+    "property-based testing (proptest): tolerance ladders and Euler step ladders against closed-form solutions (two-sided order check), metamorphic pairs complex vs equivalent real system and static vs dynamic dimension",
+    "Tolerance ladders 1e-3..1e-10 for the six adaptive solvers and step ladders for Euler on closed-form problems with a problem-dependent amplification factor; complex scalar problems against the equivalent real 2x2 system; the same problem through new() and new_dyn().",
+    "Exploration only. Static and dynamic runs differ by rounding in the error norms, which the step controller amplifies (eps|f|/tol); they are compared after transporting points with the reference flow.",
+    "DESIGN.md 4/C04")
+add("C05", "exploration",
+    "property-based testing (proptest) with an instrumented derivative: call counter and hard evaluation budget inside the user function turn 'terminates / does not loop / order-appropriate work' into a per-case verdict",
+    "Generated smooth non-stiff problems (incl. solutions at rest) with dt_min <= 1e-6 dt_max: the solve must complete at the ending time within K (T L tol^(-1/p) + T/dt_max) + 400 derivative evaluations (K per method, >= 12x measured margin) and spend at least one evaluation per maximal step.",
+    "Exploration only. L is the larger of the Lipschitz constant and the forcing frequencies of the generated problem.",
+    "DESIGN.md 4/C05")
+add("C06", "fault_enumeration",
+    "exhaustive small-scope enumeration of builder-call sequences against a reference model of the builder contract (model-based testing) + fault enumeration: the user derivative fails at every call number k of a fault-free reference run; proptest-generated longer sequences",
+    "Every sequence of up to 4 (quick) / 5 (thorough) builder calls over a 17-symbol alphabet for all 7 builders, static and dynamic, is compared call by call with a reference model (error kinds, min/max adjustment, MissingParameters, dimension misuse), and sequences that build are solved; for 10 configurations per solver every fault position k (all k <= 400) must give a bit-identical prefix, exactly one Err(UserError(Marker(k))), then None, no further derivative calls, and the same error from collect_vec.",
+    "The builder alphabet is finite by construction (two values per time, four per step bound); faults beyond call 400 are sampled log-uniformly.",
+    "DESIGN.md 4/C06")
+
 ALL = ["C%02d" % i for i in range(1, 21)]
 
 def main():
